@@ -1572,7 +1572,10 @@ fn main() {
                 let gi = idx_of_fnidx[&n];
                 let key = gen.fns[gi].key.clone();
                 let lc = &contracts.fns[&key].loops[&k];
-                push_line(&mut final_out, &mut line_no, &format!("{}#[verus_spec(", indent));
+                match &lc.binder {
+                    Some(b) => push_line(&mut final_out, &mut line_no, &format!("{}#[verus_spec({} =>", indent, b)),
+                    None => push_line(&mut final_out, &mut line_no, &format!("{}#[verus_spec(", indent)),
+                }
                 for (kw, cls) in [("invariant_except_break", &lc.invariants_except_break), ("invariant", &lc.invariants), ("ensures", &lc.ensures)] {
                     if cls.is_empty() { continue; }
                     push_line(&mut final_out, &mut line_no, &format!("{}    {}", indent, kw));
